@@ -164,8 +164,12 @@ class FileSystem(SimComponent):
             RequestType(func=self._folder_request_manager, validator=self._folder_exists + self._folder_not_deleted),
         )
 
-        self._file_request_manager = RequestManager()
-        rm.add_request("file", RequestType(func=self._file_request_manager, validator=self._file_exists))
+        def _file_action(request: List[Any], context: Any) -> RequestResponse:
+            # ["file", folder_name, file_name, ...]: the validator has established that this file exists
+            file = self.get_file(folder_name=request[0], file_name=request[1])
+            return file._request_manager(request[2:], context)
+
+        rm.add_request("file", RequestType(func=_file_action, validator=self._file_exists))
 
         return rm
 
@@ -389,7 +393,6 @@ class FileSystem(SimComponent):
                 sys_log=self.sys_log,
             )
         folder.add_file(file, force=force)
-        self._file_request_manager.add_request(name=file.name, request_type=RequestType(func=file._request_manager))
         # increment file creation
         self.num_file_creations += 1
         return file
